@@ -80,7 +80,7 @@ def undo_renames(facts, baseline):
     signature exists in the same module (or impl), has been *renamed*: give it its old name back (definition and
     call sites), so that the rules that anchor on it still find it. Returns [(new path, old path)]."""
     cur = {f['path'] for f in facts['fns']}
-    missing = [p for p in baseline if p != '__adts__' and p not in cur and baseline[p]]
+    missing = [p for p in baseline if not p.startswith('__') and p not in cur and baseline[p]]
     if not missing:
         return []
     unknown = [f for f in facts['fns'] if f['kind'] != 'Closure' and '{closure' not in f['dp'] and f['path'] not in baseline]
@@ -108,6 +108,24 @@ def undo_renames(facts, baseline):
                                 tgt['name'] = old_name
         done.append((new_path, old_path))
     return done
+
+
+def undo_param_renames(facts, baseline):
+    """Parameter names are not part of a function's interface: a reference function whose signature is unchanged
+    gets its reference parameter names back (a renamed or destructured parameter would otherwise hide the anchor
+    of every rule that looks a parameter up by name). Only the debug names of the argument locals change."""
+    names = baseline.get('__params__') or {}
+    n = 0
+    for f in facts['fns']:
+        want = names.get(f['path'])
+        if not want or f['kind'] == 'Closure' or len(want) != f['mir']['argc'] or _sig(f) != baseline.get(f['path']):
+            continue
+        for i, nm in enumerate(want, 1):
+            loc = f['mir']['locals'][i]
+            if nm and loc.get('name') != nm:
+                loc['name'] = nm
+                n += 1
+    return n
 
 
 def stable_name(dp):
@@ -243,6 +261,7 @@ def inline_unknown(facts, baseline=None):
         return facts, []
     facts, _adt_done = undo_adt_renames(facts, baseline)
     undo_renames(facts, baseline)
+    undo_param_renames(facts, baseline)
     fns = {f['dp']: f for f in facts['fns']}
     # identity = printed path (stable under reordering of impl blocks), not the numbered def path
     unknown = {dp for dp, f in fns.items() if f['kind'] != 'Closure' and f['path'] not in baseline and '{closure' not in dp}
